@@ -15,6 +15,10 @@ def make_obs(ctx):
                       bounds={'table': '%d symbolic transitions' % n,
                               'prestate': 'cold, or the range of ANY earlier instant, or the before-first state',
                               'query': 'any instant from the first transition on'}))
+        obs.append(Ob('zone-two-step:N%d' % n, 'C12_tz.c', 'h_two_step', {'N': n}, units=['lib/leaps.c'],
+                      unwind=uw, group='zone-two-step',
+                      bounds={'table': '%d symbolic transitions' % n, 'history': 'fresh handle, one earlier lookup of ANY instant (also before the first transition), state left by the real code',
+                              'query': 'any instant from the first transition on'}))
     if ctx.tier == 'thorough':
       obs.append(Ob('zone-cache-step:big300', 'C12_tz.c', 'h_cache_step', {'N': 300, 'BIGTAB': 1}, units=['lib/leaps.c'],
                   unwind=14, unwindset=['mk_table.0:302', 'ref_k.0:302'], timeout=600, group='zone-cache-step',
